@@ -113,6 +113,11 @@ fn run_clock_error_bound_poller(
 
     // Keep on running forever until we receive the instruction to stop.
     while keep_running {
+        #[cfg(aws_clock_bound_verif)]
+        if crate::verif::fault::point(crate::verif::fault::POLLER_LOOP) {
+            return;
+        }
+
         // First, make sure we take a MONOTONIC timestamp *before* getting chronyd data. This will
         // slightly inflate the dispersion component of the clock error bound but better be
         // pessimistic and correct, than greedy and wrong. The actual error added here is expected
@@ -187,6 +192,10 @@ fn run_clock_error_bound_poller(
 /// Entry point to this thread.
 pub fn run(ctx: Context, phc_info: Option<PhcInfo>) {
     info!("Starting chronyd polling thread");
+    #[cfg(aws_clock_bound_verif)]
+    if crate::verif::fault::point(crate::verif::fault::POLLER_START) {
+        return;
+    }
     let poller = ClockErrorBoundPoller::default();
     let sleep = Duration::from_millis(1000);
     run_clock_error_bound_poller(ctx, poller, phc_info, sleep);
